@@ -2,6 +2,11 @@
 
 Generated service programs (lib/programs.py) are run over every in-process transport configuration; each
 observation is compared with the pure-Python model interpreter and pairwise across transports.
+
+Families: ``programs`` (general programs; stream methods may be declared with a union of two inheritance-related
+state classes, the derived one returned — the base member's body raises if a state is ever rebuilt as it),
+``producer_tail`` (k plain data ticks followed by a chosen ending — raise / finish / emit+finish — read to the end under
+every cap: None, 1, 700, 1 MiB), ``subprocess`` (a real worker process per program).
 """
 
 from __future__ import annotations
